@@ -64,15 +64,16 @@ SameAuth(first, w1, w2) ==
 SameTtl(first, w1, w2) == first => ParseMsg(w2).ttl = ParseMsg(w1).ttl
 
 (* what is required of EVERY rendering the library signs (first or repeated) *)
-SignedChecks(first, p, same) ==
+SignedChecks(first, p, again) ==
     /\ Check(t, l, "SignOk", e.res = "ok")
     /\ Check(t, l, "SignedWellFormed",
              /\ p.ok /\ p.tsig = "last" /\ p.class = 255 /\ p.ttl = <<0, 0, 0, 0>>
              /\ CanonWire(p.owner) = S.keywire /\ CanonWire(p.alg) = S.algwire
              /\ p.fudge = fudge /\ p.error = serror /\ p.origid = e.origid /\ p.other = S.other)
-    \* `same`: an unchanged message may be emitted again octet for octet without a new HMAC computation
-    /\ Check(t, l, "Composition", e.dig = Expected(p, csprior, cspend, first) \/ (same /\ e.dig = <<>> /\ e.wire = csent))
-    /\ Check(t, l, "MacValue", \/ (same /\ e.dig = <<>> /\ e.wire = csent)
+    \* `again`: a repeated rendering needs no new HMAC computation when what RFC 8945 authenticates (and the MAC)
+    \* is unchanged with respect to the previous rendering (e.g. only the header id changed)
+    /\ Check(t, l, "Composition", e.dig = Expected(p, csprior, cspend, first) \/ (again /\ e.dig = <<>> /\ SameAuth(TRUE, csent, e.wire)))
+    /\ Check(t, l, "MacValue", \/ (again /\ e.dig = <<>> /\ SameAuth(TRUE, csent, e.wire))
                                \/ /\ Len(e.hm) * 8 = FullBits(S.hash)
                                   /\ p.mac = SubSeq(e.hm, 1, MacBits(S.alg) \div 8))
     /\ csprior' = IF Multi THEN <<p.mac>> ELSE csprior
@@ -99,7 +100,7 @@ TResign ==
            p == ParseMsg(e.wire)
            q == ParseMsg(csent)
        IN /\ Resign(e.mod)
-          /\ SignedChecks(first, p, e.mod = "none" /\ ~Multi)
+          /\ SignedChecks(first, p, ~Multi)
           /\ Check(t, l, "EnvResignModified",
                    (p.ok /\ p.tsig = "last" /\ q.ok /\ q.tsig = "last") =>
                       /\ e.mod = "id" => (SubSeq(e.wire, 1, 2) # SubSeq(csent, 1, 2) /\ p.origid = q.origid)
